@@ -182,6 +182,15 @@ func (p *Prog) verifyFunc(fn *ssa.Function, ct *Contract) (fx *Fx, err error) {
 	for k, v := range fx.entryVarsM {
 		vars[k] = v
 	}
+	// captured variables: <name> is the value at exit, <name>0 the value at entry
+	for _, fv := range fn.FreeVars {
+		if pt, ok := fv.Type().Underlying().(*types.Pointer); ok && slots(pt.Elem()) <= 64 {
+			if pv, ok := fin.Top().Vals[fv]; ok {
+				vars[fv.Name()+"0"] = fx.entryVarsM[fv.Name()]
+				vars[fv.Name()] = fin.Load(pt.Elem(), pv.L[0], pv.L[1])
+			}
+		}
+	}
 	var resT types.Type = fn.Signature.Results()
 	if fn.Signature.Results().Len() == 1 {
 		resT = fn.Signature.Results().At(0).Type()
